@@ -33,6 +33,12 @@ def MC(name, module, cfg, cfg_thorough=None, **kw):
 
 MC_PROPS = MC("l1-props", "MC_L1", "MC_L1_props_quick.cfg", "MC_L1_props.cfg", workers=12)
 
+# a conjunction / disjunction (possibly under one Not) of two leaves on the field x, no sort, no window:
+# bounds, membership tests and their negations
+_LEAF = r'(\["not", )?\["un", "[a-z]+", \[120\], \[("lit"|"list"), .*?\]\]\]?'
+BOUNDS_RE = r'^\{"op": "Derived", "c": "a", "q": \[\["where", (\["not", )?\["(and|or)", ' + _LEAF + ', ' + _LEAF + r'\]\]?\]\], "js"'
+
+
 def AUX(name, aux, n, **kw):
     d = {"kind": "aux", "name": name, "aux": aux, "n": n}
     d.update(kw)
@@ -122,7 +128,7 @@ PLANS["C01"] = {
         EDG("edges", ["InvC01"], ops=["Derived"]),
         # every conjunction / disjunction of two bounds on the indexed field, in both orders, on content-rich states
         EDG("edges-bounds", ["InvC01"], ops=["Derived"], rich_states=40, states=(3, 30), reads=(0, 0),
-            event_re=r'^\{"op": "Derived", "c": "a", "q": \[\["where", \["(and|or)", \["un", "[a-z]+", \[120\], \["lit", [^\]]*\]\]\], \["un", "[a-z]+", \[120\], \["lit", [^\]]*\]\]\]\]\]\], "js"'),
+            event_re=BOUNDS_RE),
     ],
 }
 
@@ -132,6 +138,8 @@ PLANS["C06"] = {
     "stages": [
         T("audit", "audit", (60, 1500), ["InvAudit"]),
         T("general", "general", (30, 800), ["InvAudit"]),
+        # multi-page collections: bulk operations, DropIndex / CreateIndex over hundreds of entries
+        T("bulk", "bulk", (24, 240), ["InvAudit"], backends="bolt,badger", chunk=3, heap="6g"),
         EDG("edges", ["InvAudit"], states=(30, 0), reads=(1, 1), writes=(25, 150)),
     ],
 }
@@ -214,7 +222,7 @@ PLANS["C02"] = {
         MC("plan-laws", "MC_Plan", "MC_Plan_planq.cfg", "MC_Plan_plan.cfg", workers=12, timeout=1800),
         AUX("plan-model", "plan", (300, 3000), chunk=150, invariants=["InvPlanModel"], advisory=True, seed_off=9),
         EDG("edges-bounds", ["InvC02"], ops=["Derived"], rich_states=40, states=(3, 30), reads=(0, 0), seed_off=5,
-            event_re=r'^\{"op": "Derived", "c": "a", "q": \[\["where", \["(and|or)", \["un", "[a-z]+", \[120\], \["lit", [^\]]*\]\]\], \["un", "[a-z]+", \[120\], \["lit", [^\]]*\]\]\]\]\]\], "js"'),
+            event_re=BOUNDS_RE),
     ],
 }
 
@@ -222,7 +230,7 @@ PLANS["C03"] = {
     "level": "model_checking",
     "assumptions": L1_ASSUME,
     "stages": [
-        T("bulk", "bulk", (36, 240), ["InvC03"], backends="bolt,badger", chunk=3, heap="6g"),
+        T("bulk", "bulk", (36, 240), ["InvC03", "InvBackendsAgree"], backends="bolt,badger", chunk=3, heap="6g"),
         T("bulkbig", "bulkbig", (0, 40), ["InvC03"], backends="bolt,badger", chunk=1, heap="10g", tier="thorough"),
         T("general", "general", (30, 600), ["InvC03"]),
         EDG("edges", ["InvC03"], ops=["UpdateFunc", "Delete", "DropCollection"], states=(30, 0), reads=(0, 0), writes=(20, 0)),
@@ -323,6 +331,8 @@ PLANS["C04"] = {
         T("invalid", "audit", (40, 800), ["InvErrNoTrace", "InvOutcome"]),
         T("ids", "ids", (30, 600), ["InvErrNoTrace", "InvOutcome"]),
         T("io", "io", (20, 400), ["InvErrNoTrace", "InvC19"]),
+        # operations of about 11 MB (beyond badger's transaction size limit): an error leaves no trace
+        T("huge", "huge", (3, 12), ["InvErrNoTrace", "InvNoPanic"], backends="rotate", chunk=1, heap="8g"),
     ],
 }
 
@@ -354,10 +364,15 @@ PLANS["C07"] = {
         MC("conc-badger", "CloverConc", "MC_Conc_badger.cfg", workers=12),
         MC("conc-badger-prerepair", "CloverConc", "MC_Conc_badger_prefix.cfg", workers=12, expect_violation="Linearizable"),
         MC("conc-badger3", "CloverConc", "MC_Conc_badger3.cfg", workers=14, heap="24g", timeout=3000, tier="thorough"),
+        MC("conc-badger3-prerepair", "CloverConc", "MC_Conc_badger3_prepoint.cfg", workers=14, heap="24g", timeout=3000,
+           tier="thorough", expect_violation="Linearizable"),
         # binding of the model to the code: the keys each operation really reads / writes (advisory drift)
         AUX("rwset", "rwset", (1, 1), module="TraceRW", invariants=["InvRW"], advisory=True, chunk=200),
         {"kind": "lin", "name": "lin", "n": (120, 3000), "maxg": 4, "ops": 3, "chunk": 10},
         {"kind": "lin", "name": "lin-wide", "n": (30, 1000), "maxg": 8, "ops": 3, "chunk": 5, "seed_off": 31},
+        # deterministic schedules on the optimistic store: a bulk update held open (gate in its first callback)
+        # while a point update and then a reader run to completion
+        {"kind": "lin", "name": "lin-gated", "n": (12, 60), "gated": True, "backends": "badger,badgermem", "chunk": 12, "seed_off": 63},
         {"kind": "race", "name": "race", "n": (40, 600), "maxg": 6},
     ],
 }
